@@ -181,10 +181,16 @@ def _decorate_namespace_function(
         base_accepts_all = False
         for base in bases:
             if hasattr(base, key):
+                base_func = getattr(base, key)
+
+                # An attribute of the base which is not callable (*e.g.*, a placeholder ``handler = None``)
+                # is not a function to be overridden, so there are no contracts to combine with.
+                if not callable(base_func):
+                    continue
+
                 bases_have_func = True
 
                 # Check if there is a checker function in the base class
-                base_func = getattr(base, key)
                 base_contract_checker = icontract._checkers.find_checker(func=base_func)
 
                 # Ignore functions which don't have preconditions or postconditions
